@@ -11,6 +11,10 @@ namespace Pyrtma.Mgr
 /-- `B` is false on CLIENT_INFO -/
 def CtlIO (B : Body → Bool) : Prop := ∀ a b c d e f, B (.info a b c d e f) = false
 
+theorem dataSends_of_QE {B : Body → Bool} {s s' : State} (h : QE B s s') : dataSends B s'.out = dataSends B s.out := by
+  obtain ⟨ext, ho, hq⟩ := h
+  rw [ho, dataSends_append, hq]; simp
+
 section top
 variable (cfg : Cfg) {B : Body → Bool} (hB : Tag cfg B) (hc : CtlIO B)
 include hB hc
